@@ -25,6 +25,7 @@ type kase struct {
 	group []int
 	N     int
 	bound int
+	P, B  int // parameter sets and input blocks (cyclic when fewer than cells)
 }
 
 const T = 3
@@ -70,16 +71,16 @@ func (k kase) build() *world {
 	model := k.tbl.Model
 	desc := sim.Catalog[model]().Description()
 	maxN := 0
-	for c := 0; c < k.N; c++ {
+	for c := 0; c < k.P; c++ {
 		if n := tables.TableLen(model, k.cellParams(c)); n > maxN {
 			maxN = n
 		}
 	}
-	cols := make([][]float64, k.N)
+	cols := make([][]float64, k.P)
 	for c := range cols {
 		cols[c] = tables.Repack(model, k.cellParams(c), maxN)
 	}
-	params := data.NewArray2DFloat64(len(cols[0]), k.N)
+	params := data.NewArray2DFloat64(len(cols[0]), k.P)
 	for c := range cols {
 		for i, v := range cols[c] {
 			params.Set2(i, c, v)
@@ -90,8 +91,8 @@ func (k kase) build() *world {
 		w.m.InitialiseDimensions(dims)
 	}
 	w.m.ApplyParameters(params)
-	w.in = data.NewArray3DFloat64(k.N, len(desc.Inputs), T)
-	for c := 0; c < k.N; c++ {
+	w.in = data.NewArray3DFloat64(k.B, len(desc.Inputs), T)
+	for c := 0; c < k.B; c++ {
 		for i, s := range k.inputs(c) {
 			for t, v := range s {
 				w.in.Set3(c, i, t, v)
@@ -109,11 +110,11 @@ func run(k kase, r *vf.Rec) {
 	// sequential reference: every cell alone
 	ref := make([]mrun.Result, k.N)
 	for c := 0; c < k.N; c++ {
-		ref[c] = mrun.RunCell(model, k.cellParams(c), k.inputs(c), T, nil)
+		ref[c] = mrun.RunCell(model, k.cellParams(c%k.P), k.inputs(c%k.B), T, nil)
 	}
 	var w *world
 	h := &sched.Harness{
-		Name:  fmt.Sprintf("%s/N=%d", model, k.N),
+		Name:  fmt.Sprintf("%s/N=%d,P=%d,B=%d", model, k.N, k.P, k.B),
 		Reset: func() { w = k.build() },
 		Body:  func() { w.m.Run(w.in, w.st, w.out) },
 		Observe: func(res vrt.Result) sched.Outcome {
@@ -166,7 +167,7 @@ func (e *enum) N() int64               { return int64(len(e.cases)) }
 func (e *enum) Run(i int64, r *vf.Rec) { run(e.cases[i], r) }
 func (e *enum) Describe(i int64) interface{} {
 	k := e.cases[i]
-	return map[string]interface{}{"model": k.tbl.Model, "cells": k.N, "preemption_bound": k.bound, "timesteps": T}
+	return map[string]interface{}{"model": k.tbl.Model, "cells": k.N, "parameter_sets": k.P, "input_blocks": k.B, "preemption_bound": k.bound, "timesteps": T}
 }
 func (e *enum) CrashSig(i int64, tail string) (string, string) {
 	return "C05/Run/" + e.cases[i].tbl.Model + "/crash", "the schedule exploration crashed the process"
@@ -175,11 +176,12 @@ func (e *enum) CrashSig(i int64, tail string) (string, string) {
 func build(tier string) *enum {
 	e := &enum{}
 	for _, t := range tables.All() {
-		e.cases = append(e.cases, kase{t, groupFor(t), 2, -1})
+		g := groupFor(t)
+		e.cases = append(e.cases, kase{t, g, 2, -1, 2, 2}, kase{t, g, 2, -1, 1, 1})
 		if tier == "thorough" {
-			e.cases = append(e.cases, kase{t, groupFor(t), 3, -1}, kase{t, groupFor(t), 4, 2})
+			e.cases = append(e.cases, kase{t, g, 3, 3, 3, 3}, kase{t, g, 3, 3, 2, 1}, kase{t, g, 4, 2, 3, 2})
 		} else {
-			e.cases = append(e.cases, kase{t, groupFor(t), 3, 1})
+			e.cases = append(e.cases, kase{t, g, 3, 1, 2, 1})
 		}
 	}
 	return e
@@ -188,7 +190,7 @@ func build(tier string) *enum {
 func Spec() *vf.Check {
 	return &vf.Check{
 		ID: "C05", Level: "model_checking", BlockSize: 1, HangSeconds: 3600,
-		Rule: "for every catalogued model and N = 2 cells (all interleavings), N = 3 (quick: <= 1 preemption; thorough: all) and N = 4 (thorough, <= 2 preemptions): the rewritten generated Run executes under the controlled scheduler with scheduling points at spawn, channel send/receive and thread exit; the binary is built with -race and the scheduler's hand-offs are hidden from the race detector, so every explored schedule is checked for unsynchronised conflicting accesses; outputs and final states of every schedule are compared bit-for-bit with the sequential cell-by-cell result; deadlocks are reported. " +
+		Rule: "for every catalogued model and N = 2 cells (all interleavings; one parameter set / input block per cell, and a single shared one), N = 3 (quick: <= 1 preemption, 2 parameter sets, 1 shared input block; thorough: <= 3 preemptions, both layouts) and N = 4 (thorough, <= 2 preemptions, 3 sets / 2 blocks): the rewritten generated Run executes under the controlled scheduler with scheduling points at spawn, channel send/receive and thread exit; the binary is built with -race and the scheduler's hand-offs are hidden from the race detector, so every explored schedule is checked for unsynchronised conflicting accesses; outputs and final states of every schedule are compared bit-for-bit with the sequential cell-by-cell result; deadlocks are reported. " +
 			"The ow-sim generation part reuses the C07 harness (see C07).",
 		Assumptions: []string{"the cooperative scheduler runs one logical thread at a time (sequential consistency between scheduling points); weak-memory reorderings are not modelled",
 			"the race detector keeps a bounded access history per memory word; an unsynchronised pair separated by many later accesses to the same word can be missed within one schedule"},
